@@ -8,6 +8,9 @@ points at once, `Segment3D::contains_point` answers `true`: the collinearity tes
 zero distance, and the interpolation along the dominant component returns `t` itself.  With `C05.testPointLoop_on_edge` this is
 the "inside **or on** its outline" half of the property in exact semantics: an in-plane point lying on edge `k` of a closed loop,
 with no earlier edge answering `Err`, tests inside.
+`containsPoint_on_line` / `containsPoint_beyond_ends` / `containsPoint_true_imp` complete the picture for C19: on the supporting
+line the answer is exactly `0 ≤ t ≤ 1`, beyond either end it is `false`, and a `true` means: within `1e-5` of the line and
+parameter in `[0, 1]` along the dominant coordinate.
 -/
 namespace G3d.C05
 open G3d Num
@@ -119,6 +122,231 @@ theorem containsPoint_on_segment (a b : V3 ℝ) (t : ℝ) (h0 : 0 ≤ t) (h1 : t
       · exact c2 ⟨hy, hyz⟩
       · push Not at hyz; exact c3 (lt_trans hy hyz)
     · exact c3 hz
+
+/-- **a point of the supporting line is contained exactly when its parameter is in `[0, 1]`** (end points at least `ε` apart
+    in some coordinate; the point does not `compare` equal to both ends at once) -/
+theorem containsPoint_on_line (a b : V3 ℝ) (t : ℝ)
+    (hne : ¬ ((a + (b - a).smul t).compare a = true ∧ (a + (b - a).smul t).compare b = true))
+    (hsep : (2:ℝ)⁻¹ ^ 52 < |b.x - a.x| ∨ (2:ℝ)⁻¹ ^ 52 < |b.y - a.y| ∨ (2:ℝ)⁻¹ ^ 52 < |b.z - a.z|) :
+    (Segment.new a b).containsPoint (a + (b - a).smul t) = .ok (decide (0 ≤ t ∧ t ≤ 1)) := by
+  obtain ⟨p, hp⟩ : ∃ p, p = a + (b - a).smul t := ⟨_, rfl⟩
+  rw [← hp] at hne ⊢
+  have hpx : p.x = a.x + (b.x - a.x) * t := by rw [hp]; vec_real
+  have hpy : p.y = a.y + (b.y - a.y) * t := by rw [hp]; vec_real
+  have hpz : p.z = a.z + (b.z - a.z) * t := by rw [hp]; vec_real
+  -- collinearity: never an `Err`, always `true`
+  have hcol : p.isCollinearR a b = .ok true := by
+    unfold V3.isCollinearR V3.isCollinear
+    have hnn : (p.compare a && p.compare b) = false := by
+      cases h1' : p.compare a <;> cases h2' : p.compare b <;> simp_all
+    simp only [hnn, Bool.false_eq_true, if_false]
+    by_cases hany : (p.compare a || p.compare b || a.compare b) = true
+    · simp [hany]
+    · simp only [hany]
+      have hz : ((a - p).cross (b - a)).length = 0 := by
+        have : ((a - p).cross (b - a)).lengthSquared = 0 := by
+          unfold V3.lengthSquared; vec_real; rw [hpx, hpy, hpz]; ring
+        simp only [V3.length, real_sqrt, this, Real.sqrt_zero]
+      simp only [hz, real_lt_dec]
+      num_real
+      norm_num
+  show Segment.containsPoint ⟨a, b, a.distance b⟩ p = .ok (decide (0 ≤ t ∧ t ≤ 1))
+  unfold Segment.containsPoint
+  dsimp only
+  rw [hcol]
+  dsimp only
+  -- distance test: zero distance
+  have hz : ((p - a).cross (b - a)).length = 0 := by
+    have : ((p - a).cross (b - a)).lengthSquared = 0 := by
+      unfold V3.lengthSquared; vec_real; rw [hpx, hpy, hpz]; ring
+    simp only [V3.length, real_sqrt, this, Real.sqrt_zero]
+  have hlen : 0 ≤ (b - a).length := by simp only [V3.length, real_sqrt]; exact Real.sqrt_nonneg _
+  rw [if_neg (by
+    simp only [real_gt_dec, decide_eq_true_eq, not_lt, hz]
+    num_real
+    positivity)]
+  -- interpolation along the dominant component gives back `t`
+  have quot : ∀ (u v : ℝ), v - u ≠ 0 → (u + (v - u) * t - u) / (v - u) = t := by
+    intro u v hv; field_simp; ring
+  simp only [real_gt_dec, real_ge_dec, inUnitClosed, real_le_dec, Bool.and_eq_true, decide_eq_true_eq]
+  num_real
+  simp only [V3.sub_def]
+  num_real
+  simp only [hpx, hpy, hpz]
+  split_ifs with c1 c2 c3
+  · have : b.x - a.x ≠ 0 := by intro h; rw [h] at c1; simp at c1; linarith [c1.1.1, show (0:ℝ) < (2:ℝ)⁻¹ ^ 52 by positivity]
+    simp only [quot a.x b.x this]; simp [Bool.decide_and]
+  · have : b.y - a.y ≠ 0 := by intro h; rw [h] at c2; simp at c2; linarith [c2.1, show (0:ℝ) < (2:ℝ)⁻¹ ^ 52 by positivity]
+    simp only [quot a.y b.y this]; simp [Bool.decide_and]
+  · have : b.z - a.z ≠ 0 := by intro h; rw [h] at c3; simp at c3; linarith [show (0:ℝ) < (2:ℝ)⁻¹ ^ 52 by positivity]
+    simp only [quot a.z b.z this]; simp [Bool.decide_and]
+  · -- impossible: the dominant coordinate difference exceeds ε
+    exfalso
+    rcases hsep with hx | hy | hz
+    · by_cases hxd : |b.y - a.y| ≤ |b.x - a.x| ∧ |b.z - a.z| ≤ |b.x - a.x|
+      · exact c1 ⟨⟨hx, hxd.1⟩, hxd.2⟩
+      · by_cases hyz : |b.z - a.z| ≤ |b.y - a.y|
+        · have : (2:ℝ)⁻¹ ^ 52 < |b.y - a.y| := by
+            by_contra hh; push Not at hh
+            apply hxd; constructor <;> linarith
+          exact c2 ⟨this, hyz⟩
+        · push Not at hyz
+          have : (2:ℝ)⁻¹ ^ 52 < |b.z - a.z| := by
+            by_contra hh; push Not at hh
+            apply hxd; constructor <;> linarith
+          exact c3 this
+    · by_cases hyz : |b.z - a.z| ≤ |b.y - a.y|
+      · exact c2 ⟨hy, hyz⟩
+      · push Not at hyz; exact c3 (lt_trans hy hyz)
+    · exact c3 hz
+
+
+/-- **a point of the supporting line beyond either end of the segment is not contained** -/
+theorem containsPoint_beyond_ends (a b : V3 ℝ) (t : ℝ) (ht : t < 0 ∨ 1 < t)
+    (hne : ¬ ((a + (b - a).smul t).compare a = true ∧ (a + (b - a).smul t).compare b = true))
+    (hsep : (2:ℝ)⁻¹ ^ 52 < |b.x - a.x| ∨ (2:ℝ)⁻¹ ^ 52 < |b.y - a.y| ∨ (2:ℝ)⁻¹ ^ 52 < |b.z - a.z|) :
+    (Segment.new a b).containsPoint (a + (b - a).smul t) = .ok false := by
+  rw [containsPoint_on_line a b t hne hsep]
+  have : ¬ (0 ≤ t ∧ t ≤ 1) := by rintro ⟨h0, h1⟩; rcases ht with h | h <;> linarith
+  simp [this]
+
+/-- **what a `true` of `contains_point` means**: the point is within `1e-5` of the supporting line (distance test) and its
+    parameter along the dominant coordinate of the segment lies in `[0, 1]` -/
+theorem containsPoint_true_imp (a b p : V3 ℝ) (h : (Segment.new a b).containsPoint p = .ok true) :
+    ((p - a).cross (b - a)).length ≤ 1e-5 * (b - a).length ∧
+    ((|b.y - a.y| ≤ |b.x - a.x| ∧ |b.z - a.z| ≤ |b.x - a.x| ∧ 0 ≤ (p.x - a.x) / (b.x - a.x) ∧ (p.x - a.x) / (b.x - a.x) ≤ 1) ∨
+     (|b.z - a.z| ≤ |b.y - a.y| ∧ 0 ≤ (p.y - a.y) / (b.y - a.y) ∧ (p.y - a.y) / (b.y - a.y) ≤ 1) ∨
+     (0 ≤ (p.z - a.z) / (b.z - a.z) ∧ (p.z - a.z) / (b.z - a.z) ≤ 1)) := by
+  change Segment.containsPoint ⟨a, b, a.distance b⟩ p = .ok true at h
+  unfold Segment.containsPoint at h
+  dsimp only at h
+  cases hc : p.isCollinearR a b with
+  | err e => rw [hc] at h; cases h
+  | panic e => rw [hc] at h; cases h
+  | ok c =>
+    rw [hc] at h
+    cases c with
+    | false => simp at h
+    | true =>
+      dsimp only at h
+      split_ifs at h with hd c1 c2 c3
+      · simp at h
+      all_goals
+        have hdist : ((p - a).cross (b - a)).length ≤ 1e-5 * (b - a).length := by
+          bool_real_at hd; num_real_at hd; exact hd
+      · refine ⟨hdist, Or.inl ?_⟩
+        injection h with h
+        bool_real_at c1; num_real_at c1
+        simp only [inUnitClosed] at h
+        bool_real_at h; num_real_at h
+        simp only [V3.sub_def] at c1 h
+        num_real_at c1; num_real_at h
+        exact ⟨c1.1.2, c1.2, h.1, h.2⟩
+      · refine ⟨hdist, Or.inr (Or.inl ?_)⟩
+        injection h with h
+        bool_real_at c2; num_real_at c2
+        simp only [inUnitClosed] at h
+        bool_real_at h; num_real_at h
+        simp only [V3.sub_def] at c2 h
+        num_real_at c2; num_real_at h
+        exact ⟨c2.2, h.1, h.2⟩
+      · refine ⟨hdist, Or.inr (Or.inr ?_)⟩
+        injection h with h
+        simp only [inUnitClosed] at h
+        bool_real_at h; num_real_at h
+        simp only [V3.sub_def] at h
+        num_real_at h
+        exact ⟨h.1, h.2⟩
+
+
+/-! ## segment in segment -/
+
+/-- a point of the line through `a1`, `b1` is collinear with them for the crate's test, when `a1`, `b1` do not `compare` equal -/
+theorem isCollinearR_on_line (a1 b1 : V3 ℝ) (s : ℝ) (hab : a1.compare b1 = false) :
+    a1.isCollinearR b1 (a1 + (b1 - a1).smul s) = .ok true := by
+  obtain ⟨q, hq⟩ : ∃ q, q = a1 + (b1 - a1).smul s := ⟨_, rfl⟩
+  rw [← hq]
+  have hqx : q.x = a1.x + (b1.x - a1.x) * s := by rw [hq]; vec_real
+  have hqy : q.y = a1.y + (b1.y - a1.y) * s := by rw [hq]; vec_real
+  have hqz : q.z = a1.z + (b1.z - a1.z) * s := by rw [hq]; vec_real
+  unfold V3.isCollinearR V3.isCollinear
+  simp only [hab, Bool.false_and, Bool.false_eq_true, if_false, Bool.false_or]
+  by_cases hany : (a1.compare q || b1.compare q) = true
+  · simp [hany]
+  · simp only [hany]
+    have hz : ((b1 - a1).cross (q - b1)).length = 0 := by
+      have : ((b1 - a1).cross (q - b1)).lengthSquared = 0 := by
+        unfold V3.lengthSquared; vec_real; rw [hqx, hqy, hqz]; ring
+      simp only [V3.length, real_sqrt, this, Real.sqrt_zero]
+    simp only [hz, real_lt_dec]
+    num_real
+    norm_num
+
+/-- **segment-in-segment on the supporting line**: for a segment `a1 b1` whose ends do not `compare` equal and whose dominant
+    coordinate difference exceeds `1e-6`, a second segment with both ends on the line, at parameters `s` and `t`, is contained
+    exactly when both parameters lie in `[0, 1]` -/
+theorem contains_on_line (a1 b1 : V3 ℝ) (s t : ℝ) (hab : a1.compare b1 = false)
+    (hlen : ¬ (a1.distance b1 < 1e-6))
+    (hsep : 1e-6 < |b1.x - a1.x| ∨ 1e-6 < |b1.y - a1.y| ∨ 1e-6 < |b1.z - a1.z|) :
+    (Segment.new a1 b1).contains (Segment.new (a1 + (b1 - a1).smul s) (a1 + (b1 - a1).smul t))
+      = .ok (decide ((0 ≤ s ∧ s ≤ 1) ∧ (0 ≤ t ∧ t ≤ 1))) := by
+  have c1 := isCollinearR_on_line a1 b1 s hab
+  have c2 := isCollinearR_on_line a1 b1 t hab
+  obtain ⟨p, hp⟩ : ∃ p, p = a1 + (b1 - a1).smul s := ⟨_, rfl⟩
+  obtain ⟨q, hq⟩ : ∃ q, q = a1 + (b1 - a1).smul t := ⟨_, rfl⟩
+  rw [← hp] at c1 ⊢
+  rw [← hq] at c2 ⊢
+  have hpx : p.x = a1.x + (b1.x - a1.x) * s := by rw [hp]; vec_real
+  have hpy : p.y = a1.y + (b1.y - a1.y) * s := by rw [hp]; vec_real
+  have hpz : p.z = a1.z + (b1.z - a1.z) * s := by rw [hp]; vec_real
+  have hqx : q.x = a1.x + (b1.x - a1.x) * t := by rw [hq]; vec_real
+  have hqy : q.y = a1.y + (b1.y - a1.y) * t := by rw [hq]; vec_real
+  have hqz : q.z = a1.z + (b1.z - a1.z) * t := by rw [hq]; vec_real
+  show Segment.contains ⟨a1, b1, a1.distance b1⟩ ⟨p, q, p.distance q⟩ = _
+  unfold Segment.contains
+  dsimp only
+  split
+  · rename_i hc0
+    exfalso
+    bool_real_at hc0; num_real_at hc0
+    exact hlen hc0
+  rw [c1]
+  dsimp only
+  rw [c2]
+  dsimp only
+  have quot : ∀ (u v r : ℝ), v - u ≠ 0 → (u + (v - u) * r - u) / (v - u) = r := by
+    intro u v r hv; field_simp; ring
+  simp only [real_gt_dec, real_ge_dec, inUnitClosed, real_le_dec, Bool.and_eq_true, decide_eq_true_eq]
+  num_real
+  simp only [V3.sub_def]
+  num_real
+  simp only [hpx, hpy, hpz, hqx, hqy, hqz]
+  split_ifs with d1 d2 d3
+  · have : b1.x - a1.x ≠ 0 := by intro h; rw [h] at d1; simp at d1; linarith [d1.1.1]
+    simp only [quot a1.x b1.x _ this]; simp [Bool.decide_and]
+  · have : b1.y - a1.y ≠ 0 := by intro h; rw [h] at d2; simp at d2; linarith [d2.1]
+    simp only [quot a1.y b1.y _ this]; simp [Bool.decide_and]
+  · have : b1.z - a1.z ≠ 0 := by intro h; rw [h] at d3; simp at d3; linarith
+    simp only [quot a1.z b1.z _ this]; simp [Bool.decide_and]
+  · exfalso
+    rcases hsep with hx | hy | hz
+    · by_cases hxd : |b1.y - a1.y| ≤ |b1.x - a1.x| ∧ |b1.z - a1.z| ≤ |b1.x - a1.x|
+      · exact d1 ⟨⟨hx, hxd.1⟩, hxd.2⟩
+      · by_cases hyz : |b1.z - a1.z| ≤ |b1.y - a1.y|
+        · have : 1e-6 < |b1.y - a1.y| := by
+            by_contra hh; push Not at hh
+            apply hxd; constructor <;> linarith
+          exact d2 ⟨this, hyz⟩
+        · push Not at hyz
+          have : 1e-6 < |b1.z - a1.z| := by
+            by_contra hh; push Not at hh
+            apply hxd; constructor <;> linarith
+          exact d3 this
+    · by_cases hyz : |b1.z - a1.z| ≤ |b1.y - a1.y|
+      · exact d2 ⟨hy, hyz⟩
+      · push Not at hyz; exact d3 (lt_trans hy hyz)
+    · exact d3 hz
+
 
 end
 end G3d.C05
